@@ -242,7 +242,7 @@ class C21(Spec):
 
     def gen(self, tier, rng):
         cases = pattern_cases()
-        nr = 240 if tier == 'quick' else 3000
+        nr = 180 if tier == 'quick' else 3000
         for k in range(nr):
             c = rnd_case(rng, opt=OPTS[k % 3], force_first_onesided=(k % 4 == 0))
             c['class'] = 'random'
